@@ -1,22 +1,382 @@
-import CalicoVerif.Model.C10
+import CalicoVerif.Proofs.C10
 /-!
 C10 — Workload traffic dispatch is exact and fails closed.
+
+Property theorems (helper lemmas: `CalicoVerif.Proofs.C10`).  "Handed to the chain `c`" is
+expressed as: evaluation of the dispatch root chain equals the evaluation of `c` — and since
+the endpoint chains are not part of the dispatch chain set, `evalChain` reports `.missing c`
+(control left the dispatch chains towards exactly `c`).
+
+Guards (each stated as an explicit hypothesis, each necessary — see the `example`s at the end):
+* no configured name is empty (the real code panics; `sortAndDivide = none`);
+* no configured name ends in the dataplane's wildcard byte (`+` / `*`): such a name is a pattern;
+* `chainNamesOK`: rendered chain names are pairwise distinct and differ from the endpoint chain
+  names (decidable; evaluated on every generated case by driver and harness).
 -/
 namespace CalicoVerif.C10
 open CalicoVerif.Netfilter
 
-/-- `dedupAdj` keeps exactly the members of its input. -/
-theorem mem_dedupAdj (last : Option Bytes) (l : List Bytes) (x : Bytes) :
-    x ∈ dedupAdj last l → x ∈ l := by
-  induction l generalizing last with
-  | nil => simp [dedupAdj]
-  | cons n ns ih =>
-    simp only [dedupAdj]
-    split
-    · intro h; exact List.mem_cons_of_mem _ (ih _ h)
-    · intro h
-      rcases List.mem_cons.1 h with h | h
-      · exact h ▸ List.mem_cons_self
-      · exact List.mem_cons_of_mem _ (ih _ h)
+/-- The buckets computed by `sortAndDivideEndpointNamesToPrefixTree` partition exactly the
+configured names by "common prefix + next byte", and the bucket of the bare common prefix is a
+singleton (this is where sorting + adjacent de-duplication is needed). -/
+theorem sortAndDivide_buckets {names : List Bytes} {t : Tree} (h : sortAndDivide names = some t) :
+    TreeOK names t := sortAndDivide_ok h
+
+theorem childChain_multi (chainName ifx epPfx : String) (d : IfDir) (cp : Bytes) (endRules : List Rule)
+    (b : Bytes × List Bytes) (hm : ∀ n, b.2 ≠ [n]) :
+    childChain chainName ifx epPfx d cp endRules b =
+      some { name := childChainName chainName ifx cp b.1,
+             rules := b.2.map (endpointRule epPfx d) ++ endRules } := by
+  obtain ⟨p, ns⟩ := b
+  rcases ns with _ | ⟨a, _ | ⟨c, cs⟩⟩
+  · rfl
+  · exact absurd rfl (hm a)
+  · rfl
+
+/-- **Prefix-tree dispatch is exact** (any dataplane, any end rules, any chain set that contains
+the tree's chains): a packet on a configured interface leaves the dispatch chains towards that
+interface's endpoint chain and no other; any other packet reaches the end rules. -/
+theorem tree_chain_exact (env : Env) (chains : List Chain) (pkt : Packet) (d : IfDir)
+    (names : List Bytes) (t : Tree) (chainName ifx epPfx : String) (endRules : List Rule)
+    (G : Nat) (mark : Mark)
+    (hsd : sortAndDivide names = some t)
+    (hw : ∀ n ∈ names, n.getLast? ≠ some (wildcardByte env.dp))
+    (hsub : ∀ c, c ∈ (buildTree env.dp chainName t epPfx d endRules ifx).1 ∨
+                 c = (buildTree env.dp chainName t epPfx d endRules ifx).2 → c ∈ chains)
+    (hnd : (chains.map (·.name)).Nodup)
+    (hext : ∀ n ∈ names, lookupChain chains (endpointChainName epPfx n) = none) :
+    (ifaceOf d pkt ∈ names →
+      evalChain env chains pkt (G + 3) chainName mark =
+        .missing (endpointChainName epPfx (ifaceOf d pkt))) ∧
+    (ifaceOf d pkt ∉ names → ∃ F, 1 ≤ F ∧
+      evalChain env chains pkt (G + 3) chainName mark =
+        runRules env (evalChain env chains pkt F) pkt endRules mark) := by
+  have ok := sortAndDivide_ok hsd
+  have hroot := lookupChain_of_mem hnd (hsub _ (Or.inr rfl))
+  simp only [buildTree] at hroot
+  rw [evalChain_of_lookup hroot]
+  have hchild : ∀ b ∈ t.buckets, (∀ n, b.2 ≠ [n]) → ∀ m,
+      evalChain env chains pkt (G + 2) (childChainName chainName ifx t.commonPrefix b.1) m =
+        runRules env (evalChain env chains pkt (G + 1)) pkt
+          (b.2.map (endpointRule epPfx d) ++ endRules) m := by
+    intro b hb hm m
+    have hc : ({ name := childChainName chainName ifx t.commonPrefix b.1,
+                 rules := b.2.map (endpointRule epPfx d) ++ endRules } : Chain) ∈ chains := by
+      apply hsub; left
+      simp only [buildTree]
+      exact List.mem_filterMap.2 ⟨b, hb, childChain_multi _ _ _ _ _ _ b hm⟩
+    have := lookupChain_of_mem hnd hc
+    exact evalChain_of_lookup this _ _
+  have h := tree_dispatch env (evalChain env chains pkt (G + 2)) (evalChain env chains pkt (G + 1))
+    pkt d mark names t chainName ifx epPfx endRules ok hw hchild
+  constructor
+  · intro hx
+    have hmiss := hext _ hx
+    rcases h.1 hx with h1 | h1
+    · rw [h1]; exact evalChain_missing hmiss _ _
+    · rw [h1]; exact evalChain_missing hmiss _ _
+  · intro hx
+    rcases h.2 hx with h1 | h1
+    · exact ⟨G + 2, by omega, h1⟩
+    · exact ⟨G + 1, by omega, h1⟩
+
+theorem runRules_deny (env : Env) (call : String → Mark → Result) (pkt : Packet) (reject : Bool)
+    (mark : Mark) :
+    runRules env call pkt (unknownIfaceRules reject) mark =
+      .verdict (if reject then .reject else .drop) mark := by
+  cases reject <;> simp [unknownIfaceRules, denyAction, runRules, Rule.matches, resolveAction]
+
+/-- **Workload dispatch (iptables) is exact and fails closed**, both directions: traffic from /
+to a configured workload interface goes to that interface's `cali-fw-` / `cali-tw-` chain,
+traffic on any other interface is dropped (or rejected, per `FilterDenyAction`). -/
+theorem workload_dispatch_exact_ipt (names : List Bytes) (reject : Bool) (chains : List Chain)
+    (pkt : Packet) (G : Nat) (mark : Mark)
+    (hc : workloadDispatchChains .ipt reject names = some chains)
+    (hw : ∀ n ∈ names, n.getLast? ≠ some (wildcardByte .ipt))
+    (hok : chainNamesOK chains
+      (names.map (endpointChainName pfxFromWl) ++ names.map (endpointChainName pfxToWl)) = true) :
+    evalChain (mkEnv .ipt names) chains pkt (G + 3) chainFromWl mark =
+      (if pkt.inIface ∈ names then .missing (endpointChainName pfxFromWl pkt.inIface)
+       else .verdict (if reject then .reject else .drop) mark) ∧
+    evalChain (mkEnv .ipt names) chains pkt (G + 3) chainToWl mark =
+      (if pkt.outIface ∈ names then .missing (endpointChainName pfxToWl pkt.outIface)
+       else .verdict (if reject then .reject else .drop) mark) := by
+  unfold workloadDispatchChains interfaceNameDispatchChains at hc
+  split at hc
+  · exact absurd hc (by simp)
+  · rename_i t hsd
+    have hc := Option.some.inj hc
+    simp only [chainNamesOK, Bool.and_eq_true, decide_eq_true_eq, List.all_eq_true,
+      List.mem_append, List.mem_map, Option.isNone_iff_eq_none] at hok
+    obtain ⟨hnd, hext⟩ := hok
+    have hbs : ∀ (cn pf : String) (d : IfDir) (e : List Rule),
+        buildSingle .ipt cn t pf d e "" = buildTree .ipt cn t pf d e "" := by
+      intro cn pf d e; simp [buildSingle]
+    simp only [hbs, pfxFromWl, pfxToWl, ne_eq, String.reduceEq, not_false_eq_true, if_true] at hc
+    constructor
+    · have h := tree_chain_exact (mkEnv .ipt names) chains pkt .inp names t chainFromWl "" pfxFromWl
+        (unknownIfaceRules reject) G mark hsd hw
+        (by
+          intro c hcm; rw [← hc]
+          simp only [pfxFromWl, mkEnv] at hcm
+          rcases hcm with h | h
+          · simp only [List.mem_append]; exact Or.inl (Or.inl h)
+          · subst h; simp)
+        hnd (fun n hn => hext _ (Or.inl ⟨n, hn, rfl⟩))
+      simp only [ifaceOf] at h
+      split
+      · rename_i hx; exact h.1 hx
+      · rename_i hx
+        obtain ⟨F, _, hF⟩ := h.2 hx
+        rw [hF, runRules_deny]
+    · have h := tree_chain_exact (mkEnv .ipt names) chains pkt .out names t chainToWl "" pfxToWl
+        (unknownIfaceRules reject) G mark hsd hw
+        (by
+          intro c hcm; rw [← hc]
+          simp only [pfxToWl, mkEnv] at hcm
+          rcases hcm with h | h
+          · simp only [List.mem_append]; exact Or.inr (Or.inl h)
+          · subst h; simp)
+        hnd (fun n hn => hext _ (Or.inr ⟨n, hn, rfl⟩))
+      simp only [ifaceOf] at h
+      split
+      · rename_i hx; exact h.1 hx
+      · rename_i hx
+        obtain ⟨F, _, hF⟩ := h.2 hx
+        rw [hF, runRules_deny]
+
+/-! ### nftables: verdict-map dispatch -/
+
+theorem find_assoc_map (ks : List Bytes) (f : Bytes → String) (key : Bytes) :
+    ((ks.map fun n => (n, f n)).find? fun kv => kv.1 == key) =
+      if key ∈ ks then some (key, f key) else none := by
+  induction ks with
+  | nil => simp
+  | cons k ks ih =>
+    simp only [List.map_cons, List.find?_cons]
+    by_cases h : k = key
+    · subst h; simp
+    · rw [show (k == key) = false from by simpa using h, ih]
+      simp [List.mem_cons, Ne.symm h]
+
+theorem vmapEnv_from (names : List Bytes) (key : Bytes) :
+    vmapEnv names chainFromWl key =
+      if key ∈ names then some (.goto (endpointChainName pfxFromWl key)) else none := by
+  simp only [vmapEnv, dispatchMappings, if_true]
+  rw [find_assoc_map]
+  simp only [mem_uniq]
+  split <;> simp
+
+theorem vmapEnv_to (names : List Bytes) (key : Bytes) :
+    vmapEnv names chainToWl key =
+      if key ∈ names then some (.goto (endpointChainName pfxToWl key)) else none := by
+  simp only [vmapEnv, dispatchMappings, chainToWl, chainFromWl, String.reduceEq, if_false, if_true]
+  rw [find_assoc_map]
+  simp only [mem_uniq]
+  split <;> simp
+
+theorem runRules_vmap_hit (env : Env) (call : String → Mark → Result) (pkt : Packet) (d : Dir)
+    (name t : String) (rs : List Rule) (mark : Mark)
+    (h : env.vmap name (if d = .src then pkt.inIface else pkt.outIface) = some (.goto t)) :
+    runRules env call pkt (({ action := .vmap d name } : Rule) :: rs) mark = call t mark := by
+  simp [runRules, Rule.matches, resolveAction, h]
+
+theorem runRules_vmap_miss (env : Env) (call : String → Mark → Result) (pkt : Packet) (d : Dir)
+    (name : String) (rs : List Rule) (mark : Mark)
+    (h : env.vmap name (if d = .src then pkt.inIface else pkt.outIface) = none) :
+    runRules env call pkt (({ action := .vmap d name } : Rule) :: rs) mark =
+      runRules env call pkt rs mark := by
+  simp [runRules, Rule.matches, resolveAction, h, applyMark]
+
+/-- **Workload dispatch (nftables verdict map) is exact and fails closed**: with the map
+contents given by `DispatchMappings`, the root chain hands a packet on a configured interface to
+that interface's chain, and denies everything else. -/
+theorem workload_dispatch_exact_nft (names : List Bytes) (reject : Bool) (chains : List Chain)
+    (pkt : Packet) (G : Nat) (mark : Mark)
+    (hc : workloadDispatchChains .nft reject names = some chains)
+    (hok : chainNamesOK chains
+      (names.map (endpointChainName pfxFromWl) ++ names.map (endpointChainName pfxToWl)) = true) :
+    evalChain (mkEnv .nft names) chains pkt (G + 2) chainFromWl mark =
+      (if pkt.inIface ∈ names then .missing (endpointChainName pfxFromWl pkt.inIface)
+       else .verdict (if reject then .reject else .drop) mark) ∧
+    evalChain (mkEnv .nft names) chains pkt (G + 2) chainToWl mark =
+      (if pkt.outIface ∈ names then .missing (endpointChainName pfxToWl pkt.outIface)
+       else .verdict (if reject then .reject else .drop) mark) := by
+  unfold workloadDispatchChains interfaceNameDispatchChains at hc
+  split at hc
+  · exact absurd hc (by simp)
+  · rename_i t hsd
+    have hc := Option.some.inj hc
+    simp only [chainNamesOK, Bool.and_eq_true, decide_eq_true_eq, List.all_eq_true,
+      List.mem_append, List.mem_map, Option.isNone_iff_eq_none] at hok
+    obtain ⟨hnd, hext⟩ := hok
+    simp only [buildSingle, pfxFromWl, pfxToWl, ne_eq, String.reduceEq, not_false_eq_true, if_true,
+      true_and, or_true, true_or, and_self, List.nil_append] at hc
+    have h1 : lookupChain chains chainFromWl =
+        some (({ action := .vmap .src chainFromWl } : Rule) :: unknownIfaceRules reject) := by
+      have := lookupChain_of_mem hnd (c := buildVmap chainFromWl .inp (unknownIfaceRules reject))
+        (by rw [← hc]; simp)
+      simpa [buildVmap] using this
+    have h2 : lookupChain chains chainToWl =
+        some (({ action := .vmap .dst chainToWl } : Rule) :: unknownIfaceRules reject) := by
+      have := lookupChain_of_mem hnd (c := buildVmap chainToWl .out (unknownIfaceRules reject))
+        (by rw [← hc]; simp)
+      simpa [buildVmap] using this
+    constructor
+    · rw [evalChain_of_lookup h1]
+      by_cases hx : pkt.inIface ∈ names
+      · rw [if_pos hx, runRules_vmap_hit _ _ _ _ _ (endpointChainName pfxFromWl pkt.inIface)]
+        · exact evalChain_missing (hext _ (Or.inl ⟨_, hx, rfl⟩)) _ _
+        · simp [mkEnv, vmapEnv_from, hx]
+      · rw [if_neg hx, runRules_vmap_miss]
+        · exact runRules_deny _ _ _ _ _
+        · simp [mkEnv, vmapEnv_from, hx]
+    · rw [evalChain_of_lookup h2]
+      by_cases hx : pkt.outIface ∈ names
+      · rw [if_pos hx, runRules_vmap_hit _ _ _ _ _ (endpointChainName pfxToWl pkt.outIface)]
+        · exact evalChain_missing (hext _ (Or.inr ⟨_, hx, rfl⟩)) _ _
+        · simp [mkEnv, vmapEnv_to, hx]
+      · rw [if_neg hx, runRules_vmap_miss]
+        · exact runRules_deny _ _ _ _ _
+        · simp [mkEnv, vmapEnv_to, hx]
+
+/-! ### host endpoint dispatch -/
+
+theorem runRules_goto_only (env : Env) (call : String → Mark → Result) (pkt : Packet) (t : String)
+    (mark : Mark) :
+    runRules env call pkt [({ action := .goto t } : Rule)] mark = call t mark := by
+  simp [runRules, Rule.matches, resolveAction]
+
+theorem runRules_skip (env : Env) (call : String → Mark → Result) (pkt : Packet) (wlp : List Bytes)
+    (rest : List Rule) (mark : Mark) :
+    runRules env call pkt
+      (wlp.map (skipWorkloadRule env.dp) ++ rest) mark =
+      if wlp.any (fun p => p.isPrefixOf pkt.outIface) then .returned mark
+      else runRules env call pkt rest mark := by
+  induction wlp with
+  | nil => simp
+  | cons p ps ih =>
+    simp only [List.map_cons, List.cons_append, skipWorkloadRule, runRules, Rule.matches, List.all_cons, List.all_nil,
+      Clause.matches, ifaceMatches_wild, Bool.and_true, resolveAction, List.any_cons]
+    by_cases h : p.isPrefixOf pkt.outIface = true
+    · simp [h]
+    · have h' : p.isPrefixOf pkt.outIface = false := Bool.eq_false_iff.2 h
+      simp only [h', Bool.false_eq_true, if_false, Bool.false_or]
+      exact ih
+
+/-- **Host endpoint dispatch is exact** (`HostDispatchChains(endpoints, default, false)`, either
+dataplane): known host interfaces go to their own `cali-fh-`/`cali-th-` chain; anything else goes
+to the wildcard host endpoint's chain only if one is configured (and, towards a workload
+interface prefix, not at all); with no wildcard endpoint the packet just returns. -/
+theorem host_dispatch_exact (dp : Dataplane) (names : List Bytes) (dflt : Bytes) (wlp : List Bytes)
+    (chains : List Chain) (pkt : Packet) (G : Nat) (mark : Mark)
+    (hc : hostDispatchChains dp names dflt wlp .both false = some chains)
+    (hw : ∀ n ∈ names, n.getLast? ≠ some (wildcardByte dp))
+    (hok : chainNamesOK chains
+      (names.map (endpointChainName "cali-fh-") ++ names.map (endpointChainName "cali-th-") ++
+        [endpointChainName "cali-fh-" dflt, endpointChainName "cali-th-" dflt]) = true) :
+    evalChain (mkEnv dp names) chains pkt (G + 3) "cali-from-host-endpoint" mark =
+      (if pkt.inIface ∈ names then .missing (endpointChainName "cali-fh-" pkt.inIface)
+       else if dflt = [] then .returned mark
+       else .missing (endpointChainName "cali-fh-" dflt)) ∧
+    evalChain (mkEnv dp names) chains pkt (G + 3) "cali-to-host-endpoint" mark =
+      (if pkt.outIface ∈ names then .missing (endpointChainName "cali-th-" pkt.outIface)
+       else if dflt = [] then .returned mark
+       else if wlp.any (fun p => p.isPrefixOf pkt.outIface) then .returned mark
+       else .missing (endpointChainName "cali-th-" dflt)) := by
+  unfold hostDispatchChains at hc
+  simp only [Bool.false_eq_true, not_false_eq_true, and_true, if_true] at hc
+  unfold interfaceNameDispatchChains at hc
+  split at hc
+  · exact absurd hc (by simp)
+  · rename_i t hsd
+    have hc := Option.some.inj hc
+    simp only [chainNamesOK, Bool.and_eq_true, decide_eq_true_eq, List.all_eq_true,
+      List.mem_append, List.mem_map, Option.isNone_iff_eq_none, List.mem_cons,
+      List.not_mem_nil, or_false] at hok
+    obtain ⟨hnd, hext⟩ := hok
+    have hbs : ∀ (cn pf : String) (d : IfDir) (e : List Rule), pf ≠ pfxFromWl → pf ≠ pfxToWl →
+        buildSingle dp cn t pf d e "" = buildTree dp cn t pf d e "" := by
+      intro cn pf d e h1 h2; simp [buildSingle, h1, h2]
+    rw [hbs _ "cali-fh-" _ _ (by decide) (by decide), hbs _ "cali-th-" _ _ (by decide) (by decide)] at hc
+    simp only [ne_eq, String.reduceEq, not_false_eq_true, if_true] at hc
+    have hmissF : ∀ F, 1 ≤ F → dflt ≠ [] →
+        evalChain (mkEnv dp names) chains pkt F (endpointChainName "cali-fh-" dflt) mark =
+          .missing (endpointChainName "cali-fh-" dflt) := by
+      intro F hF _
+      obtain ⟨F', rfl⟩ : ∃ F', F = F' + 1 := ⟨F - 1, by omega⟩
+      exact evalChain_missing (hext _ (Or.inr (Or.inl rfl))) _ _
+    have hmissT : ∀ F, 1 ≤ F → dflt ≠ [] →
+        evalChain (mkEnv dp names) chains pkt F (endpointChainName "cali-th-" dflt) mark =
+          .missing (endpointChainName "cali-th-" dflt) := by
+      intro F hF _
+      obtain ⟨F', rfl⟩ : ∃ F', F = F' + 1 := ⟨F - 1, by omega⟩
+      exact evalChain_missing (hext _ (Or.inr (Or.inr rfl))) _ _
+    constructor
+    · have h := tree_chain_exact (mkEnv dp names) chains pkt .inp names t "cali-from-host-endpoint" ""
+        "cali-fh-" _ G mark hsd hw
+        (by
+          intro c hcm; rw [← hc]
+          simp only [mkEnv] at hcm
+          rcases hcm with h | h
+          · simp only [List.mem_append]; exact Or.inl (Or.inl h)
+          · subst h; simp)
+        hnd (fun n hn => hext _ (Or.inl (Or.inl ⟨n, hn, rfl⟩)))
+      simp only [ifaceOf] at h
+      split
+      · rename_i hx; exact h.1 hx
+      · rename_i hx
+        obtain ⟨F, hF1, hF⟩ := h.2 hx
+        rw [hF]
+        by_cases hd : dflt = []
+        · simp [hd, runRules]
+        · simp only [hd, not_false_eq_true, if_true, if_false, runRules_goto_only]
+          exact hmissF F hF1 hd
+    · have h := tree_chain_exact (mkEnv dp names) chains pkt .out names t "cali-to-host-endpoint" ""
+        "cali-th-" _ G mark hsd hw
+        (by
+          intro c hcm; rw [← hc]
+          simp only [mkEnv] at hcm
+          rcases hcm with h | h
+          · simp only [List.mem_append]; exact Or.inr (Or.inl h)
+          · subst h; simp)
+        hnd (fun n hn => hext _ (Or.inl (Or.inr ⟨n, hn, rfl⟩)))
+      simp only [ifaceOf] at h
+      split
+      · rename_i hx; exact h.1 hx
+      · rename_i hx
+        obtain ⟨F, hF1, hF⟩ := h.2 hx
+        rw [hF]
+        by_cases hd : dflt = []
+        · simp [hd, runRules]
+        · simp only [hd, not_false_eq_true, if_true, if_false]
+          have := runRules_skip (mkEnv dp names) (evalChain (mkEnv dp names) chains pkt F) pkt wlp
+            [({ action := .goto (endpointChainName "cali-th-" dflt) } : Rule)] mark
+          simp only [mkEnv] at this ⊢
+          rw [this]
+          split
+          · rfl
+          · rw [runRules_goto_only]; exact hmissT F hF1 hd
+
+/-! ### non-vacuity and necessity of the guards -/
+
+/-- "cali1", "cali12", "calix" — a child chain for bucket `cali1`, a direct rule for `calix`. -/
+def exNames : List Bytes := [[99,97,108,105,49], [99,97,108,105,49,50], [99,97,108,105,120]]
+
+theorem sortNames_exNames : sortNames exNames = exNames :=
+  List.mergeSort_of_pairwise (by decide)
+
+example : (sortAndDivide exNames).isSome = true := by
+  simp only [sortAndDivide, sortNames_exNames]; decide
+example : ∀ n ∈ exNames, n.getLast? ≠ some (wildcardByte .ipt) := by decide
+
+/-- The wildcard guard is necessary: with the configured name "c+" (iptables) the rule
+`--in-interface c+` also matches the unknown interface "cx", which is therefore sent to the
+chain of "c+" instead of being dropped. -/
+example : ifaceMatches .ipt [99, 43] [99, 120] = true := by decide
+example :
+    runRules (mkEnv .ipt [[99, 43]]) (fun t _ => .missing t) { inIface := [99, 120] }
+      ([endpointRule pfxFromWl .inp [99, 43]] ++ unknownIfaceRules false) 0 ≠ .verdict .drop 0 := by
+  decide
 
 end CalicoVerif.C10
